@@ -80,6 +80,12 @@ pub fn table() -> Vec<(&'static str, Glue)> {
             Decl::Record(vec![l(U64), l(U8)]),
             Decl::Enum(vec![vec![GT::User(0), l(Tk)], vec![l(U8), GT::User(0), l(Str)]]),
         ] }),
+        // needs_drop must look at every variant / every field, not the first
+        ("enum-first-variant-plain", Glue { decls: vec![Decl::Enum(vec![vec![l(U64)], vec![], vec![l(U8), l(Tk)], vec![l(Str)]])] }),
+        ("record-last-field-droppable", Glue { decls: vec![
+            Decl::Enum(vec![vec![l(U64)], vec![l(U8), l(U64), l(ListTk)]]),
+            Decl::Record(vec![l(U64), l(U8), l(U32), GT::User(0)]),
+        ] }),
         // nothing to drop at all
         ("enum-scalars-only", Glue { decls: vec![Decl::Enum(vec![vec![l(U64), l(U8)], vec![l(U32)], vec![]])] }),
     ]
